@@ -40,6 +40,8 @@ def run(res, drv, tier, seed):
         model.potentials = gmgen.impl_potentials(pots)
         method = 'round' if r.random() < 0.7 else 'sample'
         rows = None if r.random() < 0.6 else r.choice([1, 5, 50, 999])
+        if method == 'sample' and r.random() < 0.7:
+            rows = r.choice([1000, 5000, 20000])
         npseed = r.randrange(2 ** 31)
         np.random.seed(npseed)
         attrs = [a for a, _ in dom]
@@ -79,17 +81,32 @@ def run(res, drv, tier, seed):
         if want_rows == 0:
             continue
         if method == 'sample':
-            if want_rows >= 1000:
-                for c in model.cliques:
-                    c = list(c)
+            # statistical test (labelled so in the evidence): every cell count of every model clique AND of the full joint table is a
+            # Binomial(rows, p) variable when the rows are independent draws from the model; Bernstein's inequality gives
+            # P(|X - np| > t) <= 2 exp(-t^2 / (2 (np(1-p) + t/3))), and t is chosen for a false-alarm probability below 1e-13 per cell
+            if want_rows >= 200:
+                L = 30.0
+
+                def tail(p):
+                    return L / 3 + math.sqrt(L * L / 9 + 2 * L * want_rows * p * (1 - p))
+                tests = [list(c) for c in model.cliques]
+                if len(joint) <= 2000:
+                    tests.append(list(attrs))
+                worst = None
+                for c in tests:
                     P = gmgen.brute_marginal(dom, joint, c, Fr(1))
                     got = table_counts(df, c)
                     for cell, p in zip(itertools.product(*[range(sizes[a]) for a in c]), P):
                         p = float(p)
-                        sd = math.sqrt(want_rows * p * (1 - p)) + 1
-                        if abs(got.get(cell, 0) - want_rows * p) > 6 * sd + 6 * math.sqrt(want_rows) * 0.0:
-                            res.count('sample: >6 sigma cell (statistical test, labelled)')
-                res.count('sample frequency test run')
+                        dev = abs(got.get(cell, 0) - want_rows * p)
+                        if dev > tail(p) and (worst is None or dev / tail(p) > worst[0]):
+                            worst = (dev / tail(p), c, cell, got.get(cell, 0), want_rows * p, tail(p))
+                    res.count('sample: binomial tail test on the full joint table' if c == list(attrs) else 'sample: binomial tail test on a model clique')
+                if worst:
+                    _, c, cell, cnt, exp, t = worst
+                    bad = (f'{want_rows} sampled records do not follow the model: attributes {c} cell {cell} holds {cnt} records, the model expects {exp:.1f} '
+                           f'(independent draws stay within +-{t:.1f} except with probability 1e-13)')
+                    res.violation('failing-input', f'synthetic_data(sample): {bad}', dict(rp, expected=bad), key='synth:sample-distribution')
             continue
         # rounding mode: clique-count error bounded independently of the row count
         order = list(model.elimination_order)[::-1]
